@@ -78,11 +78,13 @@ Apply(o, s) ==
                     !.notices = IF s.ev[e].notify /\ SubsOf(s, e) = {<<p, o.kind>>} THEN [s.notices EXCEPT ![s.ev[e].owner] = Append(@, "stop:" \o e)] ELSE s.notices]
   ELSE s
 
+BagOf(sq) == [x \in {sq[i] : i \in 1..Len(sq)} |-> Cardinality({i \in 1..Len(sq) : sq[i] = x})]
 Compare(o, s) ==
   IF "Result" \in Checks /\ o.res # s.res THEN "Result"
   ELSE IF "Replay" \in Checks /\ o.op = "subscribe" /\ o.returned # s.returned THEN "Replay"
   ELSE IF "Delivery" \in Checks /\ \E c \in Consumers : o.recv[c] # s.recv[c] THEN "Delivery"
-  ELSE IF "Gone" \in Checks /\ \E c \in Consumers : o.gone[c] # s.gone[c] THEN "Gone"
+  \* (the order of notifications about DIFFERENT events of one terminated producer is not specified: compare as bags)
+  ELSE IF "Gone" \in Checks /\ \E c \in Consumers : BagOf(o.gone[c]) # BagOf(s.gone[c]) THEN "Gone"
   ELSE IF "Notices" \in Checks /\ \E p \in Producers : o.notices[p] # s.notices[p] THEN "Notices"
   ELSE ""
 
